@@ -10,15 +10,17 @@ import (
 // C01: exactly-once delivery under any relay history (v1 unordered, v1 ordered, v2 alias, v2 client).
 func init() { core.Register("C01", "model_checking", runC01) }
 
-func c01Scenario(c *core.C) *PL {
+func c01Scenario(c *core.C, routes []int, maxSend, maxCommits int, kinds ...string) *PL {
 	sc := &PL{
-		Routes:     []int{rV1U, rV1O, rV2A, rV2C},
-		MaxSend:    1,
-		MaxCommits: core.Pick(c, 2, 3),
+		Routes:     routes,
+		MaxSend:    maxSend,
+		MaxCommits: maxCommits,
 		Stale:      true,
 		PastUpdate: !c.Quick(),
 		CrossProto: true,
-		Acks:       false,
+		DataKinds:  kinds,
+		CommitOn:   []int{0},
+		UpdateOn:   []int{1},
 	}
 	sc.InvFn = func(s *PL, w *ksim.World) *ksim.Fail {
 		// every receive callback belongs to a packet the source committed, and runs at most once per (dest, seq)
@@ -78,16 +80,19 @@ func c01Scenario(c *core.C) *PL {
 }
 
 func runC01(c *core.C) {
-	sc := c01Scenario(c)
-	if ksim.ReplayHistory(c, c.T, sc) {
-		return
+	d := core.Pick(c, 0, 2)
+	parts := []ksim.Part{
+		{Name: "unordered-channel+alias/all-ack-kinds", Sc: c01Scenario(c, []int{rV1U, rV2A}, 1, 3, "ok", "async", "fail"), Cfg: ksim.Config{MaxDepth: 12 + d}, Share: 0.2},
+		{Name: "unordered-channel+alias/2-async-each", Sc: c01Scenario(c, []int{rV1U, rV2A}, 2, 2, "async"), Cfg: ksim.Config{MaxDepth: 11 + d}, Share: 0.25},
+		{Name: "ordered-channel", Sc: c01Scenario(c, []int{rV1O}, 2+d/2, 3, "ok", "async"), Cfg: ksim.Config{MaxDepth: 12 + d}, Share: 0.3},
+		{Name: "v2-client", Sc: c01Scenario(c, []int{rV2C}, 2+d/2, 3, "ok", "async"), Cfg: ksim.Config{MaxDepth: 12 + d}, Share: 0.4},
+		{Name: "all-routes-mixed", Sc: c01Scenario(c, []int{rV1U, rV1O, rV2A, rV2C}, 1, 2, "async"), Cfg: ksim.Config{MaxDepth: 9 + d}},
 	}
-	cfg := ksim.Config{MaxDepth: core.Pick(c, 9, 13)}
-	st := ksim.Explore(c, sc, cfg)
-	ksim.Record(c, st, cfg, [][]ksim.Op{
+	ksim.RunParts(c, parts, [][]ksim.Op{
 		{{K: "send", A: []int{0, 0, 0}}, {K: "commit", A: []int{0}}, {K: "update", A: []int{1, 13}}, {K: "recv", A: []int{0, 13}}, {K: "recv", A: []int{0, 13}}},
+		{{K: "send", A: []int{2, 0, 0}}, {K: "commit", A: []int{0}}, {K: "update", A: []int{1, 13}}, {K: "xrecv", A: []int{0, 13}}, {K: "recv", A: []int{0, 12}}},
 	})
-	c.Set("alphabet", "send(route in v1-unordered,v1-ordered,v2-alias,v2-client) | commit(chain) | update(client,height) | recv(packet, any of the 3 newest consensus heights) | xrecv = cross-protocol forgery")
+	c.Set("alphabet", "send(route in v1-unordered,v1-ordered,v2-alias,v2-client) | commit(A) | update(client on B, height) | recv(packet, any of the 3 newest consensus heights) | xrecv = cross-protocol forgery; every relay stays enabled forever (duplicates, reorders, stale proofs are ordinary paths)")
 	c.Assume("counterparty consensus, storage commit and validator signing are played by the harness (real IAVL proofs, real signed headers, verified by the unmodified 07-tendermint client)")
 	c.Assume("one message per transaction; ante handlers (signature, redundant-relay decorator) are not part of the explored path")
 }
